@@ -165,7 +165,7 @@ def find_leaf(v, path):
 
 
 ROUTES = ["from_dict", "ctor_dict", "binding", "nixlist", "source_setitem", "scope_setitem", "set_setitem",
-          "overwrite", "list_mutated_after_render"]
+          "overwrite", "list_mutated_after_render", "from_dict_scope"]
 
 
 def python_equal_twin(rng, value):
@@ -226,6 +226,12 @@ def render(route, value):
         for i, x in enumerate(value[1]):
             lst.value[i] = x
         return holder.rebuild(), "binding", {"k": list(value[1])}
+    if route == "from_dict_scope":
+        # a set built from a dict gets a let binding through its scope mapping; this must stay
+        # with that object (other constructed sets are checked by the other routes in this process)
+        holder = AttributeSet.from_dict({"body": 1})
+        holder.scope["k"] = value
+        return holder.rebuild(), "scope", ("scope", value)
     if route == "scope_setitem":
         src = parse("{ }")
         src.expr.scope["k"] = value
